@@ -82,6 +82,18 @@ def gen_case(seed, i):
         if "rf_under" in flags and nroots < flags["rf_under"]:
             flags["rf_under"] = nroots
     spell = [rng.choice(SPELLINGS) for _ in roots]
+    if not flags["isolate"] and rng.random() < 0.25:
+        # overlapping input paths: a sub-directory of a root (through the root's symlink in a third of the
+        # draws) or the root once more, before, between or after the others - every path below is reached twice
+        r0 = rng.choice(roots)
+        k0 = roots.index(r0)
+        extra, how = rng.choice([(r0 + "/sub", "abs"), (r0 + "/sub", "rel"), (r0 + "/sub", "slash"), (r0 + "/sub", "dot"),
+                                 ("L%d/sub" % (k0 + 1), "rel"), (r0, rng.choice(SPELLINGS[:5]))])
+        at = rng.randint(0, len(roots))
+        roots = roots[:at] + [extra] + roots[at:]
+        spell = spell[:at] + [how] + spell[at:]
+        # the "symlink" spelling refers to roots by position: keep it for the original roots only
+        spell = [("abs" if (h == "symlink") else h) for h in spell]
     return {"i": i, "world": w.to_json(), "roots": roots, "flags": flags, "spell": spell,
             "threads": rng.choice(["1", "2", "0"])}
 
